@@ -14,7 +14,7 @@ import sys
 from sim import canon
 from sim.boot import PKG
 from sim.corpus import nest
-from sim.sched import LineTracer, SimInterrupt
+from sim.sched import LineTracer, SimDeadlock, SimInterrupt
 
 AMPLE = 30000
 
@@ -158,7 +158,10 @@ class Session:
             return raw_call(api, obj, opts, enc)
 
         if fault is None:
-            out, val = outcome_of(api, fn)
+            try:
+                out, val = outcome_of(api, fn)
+            except SimDeadlock as e:
+                out, val = {'k': 'deadlock', 'm': str(e)}, None
         elif fault['kind'] == 'interrupt':
             self.tracer.arm(fault['at'])
             try:
@@ -234,6 +237,9 @@ class Session:
                 cnt += 1
         except StopIteration:
             ent['state'] = 'exhausted'
+        except SimDeadlock as e:
+            ent['state'] = 'raised'
+            ent['exc'] = {'k': 'exc', 't': 'DEADLOCK', 'm': str(e)}
         except Exception as e:                  # noqa
             ent['state'] = 'raised'
             ent['exc'] = canon.exc_outcome(e)
